@@ -71,6 +71,11 @@ def tyByte : BackendMsg → UInt8
 def noticeLen (fields : List (UInt8 × Bytes)) : Nat :=
   fields.foldl (fun acc f => acc + (1 + f.2.length + 1)) (4 + 1)
 
+/-- `len += 4; if let Some(v) = value { len += v.len() }` -/
+def valueLenStep (acc : Nat) : Option Bytes → Nat
+  | some b => acc + 4 + b.length
+  | none => acc + 4
+
 /-- the length each arm of `encode` computes (a `usize`), before `as i32` -/
 def lenAsCoded : BackendMsg → Nat
   | .authenticationOk => 8
@@ -80,10 +85,7 @@ def lenAsCoded : BackendMsg → Nat
   | .backendKeyData _ _ => 12
   | .readyForQuery _ => 5
   | .rowDescription fields => fields.foldl (fun acc f => acc + (f.name.length + 1 + 18)) (4 + 2)
-  | .dataRow values =>
-    values.foldl (fun acc v => match v with
-      | some b => acc + 4 + b.length
-      | none => acc + 4) (4 + 2)
+  | .dataRow values => values.foldl valueLenStep (4 + 2)
   | .commandComplete tag => 4 + tag.length + 1
   | .errorResponse fields => noticeLen fields
   | .noticeResponse fields => noticeLen fields
